@@ -86,6 +86,7 @@ package mqtt
 //@ end
 
 //@ func remainingLength
+//@   params n
 //@   mode int
 //@   props C05
 //@   pure
@@ -95,12 +96,14 @@ package mqtt
 //@   rejects[C05] overlong: n > 0xFFFFFFF
 
 //@ func appendUint16
+//@   params b v
 //@   mode int
 //@   props C05
 //@   inline
 //@   ensures[C05] seqEq(seqOf(result), cat(seqOf(b), u16be(v)))
 
 //@ func appendBytes
+//@   params b s
 //@   mode int
 //@   props C05
 //@   inline
@@ -110,6 +113,7 @@ package mqtt
 //@   rejects[C05] overlong: len(s) > 0xFFFF
 
 //@ func appendString
+//@   params b s
 //@   mode int
 //@   props C05
 //@   inline
@@ -117,6 +121,7 @@ package mqtt
 //@   ensures[C05] seqEq(seqOf(result), cat(seqOf(b), specStr(s)))
 
 //@ func packUint16
+//@   params v
 //@   mode int
 //@   props C05
 //@   pure
@@ -124,6 +129,7 @@ package mqtt
 //@   ensures[C01,C02,C04,C05,C06,C07,C09,C10,C11,C12,C13,C15,C16,C18,C19] seqEq(seqOf(result), u16be(v))
 
 //@ func pack
+//@   params packetType contents
 //@   mode int
 //@   props C05
 //@   pure
@@ -135,6 +141,7 @@ package mqtt
 //@   ensures[C01,C02,C04,C05,C06,C07,C09,C10,C11,C12,C13,C15,C16,C18,C19] seqEq(seqOf(result), specFixed(packetType, flat3(contents)))
 
 //@ func (*pktPublish).Pack
+//@   params p
 //@   mode int
 //@   props C05 C15
 //@   pure
@@ -145,6 +152,7 @@ package mqtt
 //@   rejects[C05] bad_qos: p != nil && p.Message != nil && p.Message.QoS > QoS2
 
 //@ func (*pktPubAck).Pack
+//@   params p
 //@   mode int
 //@   props C05
 //@   pure
@@ -153,6 +161,7 @@ package mqtt
 //@   ensures[C01,C04,C05,C06,C07,C09,C10,C13,C16] seqEq(seqOf(result), specAck(0x40, p.ID))
 
 //@ func unpackUint16
+//@   params b
 //@   mode int
 //@   props C06
 //@   pure
@@ -160,6 +169,7 @@ package mqtt
 //@   ensures[C04,C05,C06,C07] result0 == 2 && result1 == uint16(b[0])<<8|uint16(b[1])
 
 //@ func (*pktPubAck).Parse
+//@   params p flag contents
 //@   mode int
 //@   props C06
 //@   assigns p.ID
@@ -169,6 +179,7 @@ package mqtt
 //@   ensures[C06,C07] result1 == nil ==> result0 == p && result0.ID == uint16(contents[0])<<8|uint16(contents[1])
 
 //@ func (*pktPubRec).Pack
+//@   params p
 //@   mode int
 //@   props C05
 //@   pure
@@ -177,6 +188,7 @@ package mqtt
 //@   ensures[C01,C04,C05,C06,C07,C09,C10,C13,C16] seqEq(seqOf(result), specAck(0x50, p.ID))
 
 //@ func (*pktPubRel).Pack
+//@   params p
 //@   mode int
 //@   props C05
 //@   pure
@@ -185,6 +197,7 @@ package mqtt
 //@   ensures[C01,C02,C05,C07,C10,C11,C12,C18,C19] seqEq(seqOf(result), specAck(0x62, p.ID))
 
 //@ func (*pktPubComp).Pack
+//@   params p
 //@   mode int
 //@   props C05
 //@   pure
@@ -193,6 +206,7 @@ package mqtt
 //@   ensures[C01,C04,C05,C06,C07,C09,C10,C13,C16] seqEq(seqOf(result), specAck(0x70, p.ID))
 
 //@ func (*pktPubRec).Parse
+//@   params p flag contents
 //@   mode int
 //@   props C06
 //@   assigns p.ID
@@ -202,6 +216,7 @@ package mqtt
 //@   ensures[C06,C07] result1 == nil ==> result0 == p && result0.ID == uint16(contents[0])<<8|uint16(contents[1])
 
 //@ func (*pktPubRel).Parse
+//@   params p flag contents
 //@   mode int
 //@   props C06
 //@   assigns p.ID
@@ -211,6 +226,7 @@ package mqtt
 //@   ensures[C04,C06] result1 == nil ==> result0 == p && result0.ID == uint16(contents[0])<<8|uint16(contents[1])
 
 //@ func (*pktPubComp).Parse
+//@   params p flag contents
 //@   mode int
 //@   props C06
 //@   assigns p.ID
@@ -220,6 +236,7 @@ package mqtt
 //@   ensures[C06,C07] result1 == nil ==> result0 == p && result0.ID == uint16(contents[0])<<8|uint16(contents[1])
 
 //@ func (*pktUnsubAck).Parse
+//@   params p flag contents
 //@   mode int
 //@   props C06
 //@   assigns p.ID
@@ -229,6 +246,7 @@ package mqtt
 //@   ensures[C06,C07] result1 == nil ==> result0 == p && result0.ID == uint16(contents[0])<<8|uint16(contents[1])
 
 //@ func (*pktPingResp).Parse
+//@   params p flag contents
 //@   mode int
 //@   props C06
 //@   pure
@@ -237,6 +255,7 @@ package mqtt
 //@   ensures[C04,C06,C07,C11,C17] result1 == nil ==> result0 == p
 
 //@ func (*pktConnAck).Parse
+//@   params p flag contents
 //@   mode int
 //@   props C06
 //@   pure
@@ -247,6 +266,7 @@ package mqtt
 //@   ensures[C04,C06,C07,C11,C16,C17] result1 == nil ==> result0 != nil && result0.Code == ConnectionReturnCode(contents[1]) && result0.SessionPresent == (contents[0]&1 != 0)
 
 //@ func (*pktSubAck).Parse
+//@   params p flag contents
 //@   mode int
 //@   props C06
 //@   assigns p.ID; p.Codes
@@ -257,6 +277,7 @@ package mqtt
 //@   ensures[C06,C07] result1 == nil ==> result0 == p && result0.ID == uint16(contents[0])<<8|uint16(contents[1])
 
 //@ func unpackString
+//@   params b
 //@   mode int
 //@   props C06
 //@   pure
@@ -270,6 +291,7 @@ package mqtt
 //@   ensures[C06] result2 == nil ==> forall(0, len([]rune(string(b[2:result0]))), func(j int) bool { return []rune(string(b[2:result0]))[j] != 0 && !(0xD800 <= []rune(string(b[2:result0]))[j] && []rune(string(b[2:result0]))[j] <= 0xDFFF) })
 
 //@ func (*pktPublish).Parse
+//@   params p flag contents
 //@   mode int
 //@   props C06
 //@   assigns p.Message
@@ -288,6 +310,7 @@ package mqtt
 //@   ensures[C04,C05] payload: result1 == nil ==> seqEq(seqOf(p.Message.Payload), sub(seqOf(contents), 2+(int(contents[0])*256+int(contents[1]))+ite(p.Message.QoS != QoS0, 2, 0), len(contents)))
 
 //@ func readPacket
+//@   params r
 //@   mode bv
 //@   props C06
 //@   pure
@@ -340,6 +363,7 @@ package mqtt
 //@ end
 
 //@ func (*pktSubscribe).Pack
+//@   params p
 //@   mode int
 //@   props C05 C15
 //@   pure
@@ -351,6 +375,7 @@ package mqtt
 //@   ensures[C01,C02,C05,C07,C10,C11,C15,C18,C19] seqEq(seqOf(result), specSubscribe(p.ID, p.Subscriptions))
 
 //@ func (*pktUnsubscribe).Pack
+//@   params p
 //@   mode int
 //@   props C05 C15
 //@   pure
@@ -392,6 +417,7 @@ package mqtt
 //@ end
 
 //@ func (*pktConnect).Pack
+//@   params p
 //@   mode int
 //@   props C05 C09
 //@   pure
